@@ -10,8 +10,9 @@ import os
 
 from lib.vlib import gN, gnat, gbool, glist, gbytes, gpair
 
-HDR = "From SioV Require Import Base.Conc Sio.Pipeline Sio.PipelineCheck.\n"
+HDR = "From SioV Require Import Base.Conc Sio.Pipeline Sio.PipelineCheck Sio.PipelineConn Sio.PipelineConnCheck.\n"
 KEY = "handler-entry-order:dispatch-goroutines"
+KEYW = "connect-window-order:emit-between-connected-and-flush"
 THEOREMS = ["C02_wire_order", "C02_wire_complete", "C02_reassembly", "C02_reassembly_complete",
             "C02_dispatch_exactly_once", "C02_handler_entry_order_partial"]
 
@@ -59,7 +60,11 @@ def wire_term_interned(row):
     wire = glist(("(Msg (mkFrame %s %s))" % (gbool(w["b"]), fid(w["d"] or []))) if w["t"] == 4 else "(Ctl %s)" % gN(w["t"])
                  for w in row["wire"])
     fin = glist(gpair(cnat(f["e"]), cnat(f["s"]), glist(fid(a) for a in f["atts"])) for f in row["finished"])
-    return "((%s, %s, %s, %s, %s) : icase)" % (model_transport(row), gbool(row["complete"]), progs, wire, fin)
+    core = "(%s, %s, %s, %s, %s)" % (model_transport(row), gbool(row["complete"]), progs, wire, fin)
+    if row["mode"] == "connrace":
+        k = sum(p for p in row["pre"] if p > 0)
+        return "((%s, %s) : iccase)" % (core, cnat(k))
+    return "(%s : icase)" % core
 
 
 def entries_term(row):
@@ -70,7 +75,7 @@ def entries_term(row):
 
 def slim(row, keep_wire=True):
     """replay payload: scenario parameters + (bounded) observation"""
-    r = {k: row.get(k) for k in ("mode", "dir", "transport", "trname", "n", "seed", "bursts", "attcounts",
+    r = {k: row.get(k) for k in ("mode", "dir", "transport", "trname", "n", "seed", "bursts", "attcounts", "pre", "window",
                                  "complete", "parseerr", "enverr", "class", "inversions")}
     if row["mode"] == "handler":
         r["entries"] = row.get("entries", [])[:4000]
@@ -162,6 +167,65 @@ def wire_suite(ctx, vh, name, args):
                        "case": slim(r)}, no_input=True)
 
 
+# ------------------------------------------------------------------ connect race (second producer path)
+def conn_suite(ctx, vh, name, args):
+    """client -> raw server; packets parked before the CONNECT reply are flushed while other goroutines
+    (and, in the window family, the same goroutine) emit directly"""
+    rows = ctx.vh_jsonl(vh, "order", ["-mode", "connrace"] + args, timeout=600)
+    if rows is None:
+        return
+    rows = split_env(ctx, rows, "connrace/" + name)
+    if not rows:
+        return
+    terms = [wire_term_interned(r) for r in rows]
+    for r in rows:
+        nmsg = sum(1 for w in r["wire"] if w["t"] == 4)
+        racing = any(p < 0 for p in r["pre"]) and any(p > 0 for p in r["pre"])
+        ctx.count(nmsg, nontrivial_key=("c", r["transport"], r["n"], r["seed"], bool(r.get("window"))) if racing or r.get("window") else None,
+                  dist="connrace:%s:%s" % (r["transport"], "window" if r.get("window") else "race"))
+    ctx.sample({"suite": "connrace/" + name, "case": slim(rows[0])}, limit=5)
+    verdicts = ctx.coq_eval_values("conn_verdict_" + name, HDR, ["conn_verdict_i %s" % t for t in terms], shard=4)
+    cls, agrees = [], []
+    for v in verdicts:
+        a, b = v.strip("() ").split(",")
+        cls.append(int(a.split("%")[0].strip("() ")))
+        agrees.append(b.strip("() ") == "true")
+    for i, r in enumerate(rows):
+        if (r.get("parseerr") or any(f.get("err") for f in r["finished"])) and cls[i] != 2:
+            cls[i] = 2
+    ctx.obligation("oracle:connrace/" + name, "oracle", all(c != 2 for c in cls),
+                   "%d histories (%d frames): %d hold in full, %d with only the per-emitter order broken across the connect "
+                   "instant (finding %s), %d with interleaved / lost / duplicated frames"
+                   % (len(rows), sum(len(r["wire"]) for r in rows), cls.count(0), cls.count(1), KEYW, cls.count(2)))
+    for i, c in enumerate(cls):
+        r = rows[i]
+        if c == 1:
+            ctx.fail_or_known(KEYW, "connect race (%s, %d emitters%s): frames contiguous and every event exactly once, but a goroutine's "
+                              "events emitted after `Connected` overtook its own parked events" %
+                              (r.get("trname") or r["transport"], r["n"], ", window family" if r.get("window") else ""),
+                              {"kind": "failing-input", "engine": "order", "mode": "connrace", "args": args, "case": slim(r)})
+        elif c == 2:
+            ctx.fail_or_known(None, "connect race (%s, %d emitters, parked before the CONNECT reply: %s): the MESSAGE frames seen by the raw "
+                              "Engine.IO peer are not the frames of whole packets each exactly once (a frame of another packet between a "
+                              "header and its attachments, a lost or duplicated packet), or the reference decoder did not reassemble them%s"
+                              % (r.get("trname") or r["transport"], r["n"], r["pre"], "" if r["complete"] else " (events missing after 20 s)"),
+                              {"kind": "failing-input", "engine": "order", "mode": "connrace", "args": args, "case": slim(r)})
+    bad_agree = [i for i, c in enumerate(cls) if c != 2 and not agrees[i]]
+    # a natural (non-window) race whose shape the schedule guesser does not cover is not a mismatch of the model
+    hard = [i for i in bad_agree if cls[i] == 1 and not rows[i].get("window")]
+    for i in hard:
+        ctx.indeterminate += 1
+    bad_agree = [i for i in bad_agree if i not in hard]
+    ctx.obligation("correspondence:connrace/" + name, "correspondence", not bad_agree,
+                   "%d histories reproduced by a strict run of Sio/PipelineConn.v (park, connect, window emits, one flush, drain), %d not"
+                   % (sum(1 for c in cls if c != 2) - len(bad_agree) - len(hard), len(bad_agree)))
+    if bad_agree and all(c != 2 for c in cls):
+        ctx.violation("connect-race history is not a behaviour of the model Sio/PipelineConn.v",
+                      {"kind": "correspondence-broken", "suite": "connrace/" + name,
+                       "theorems": ["C02_conn_contiguity", "C02_conn_reassembly", "C02_conn_exactly_once"],
+                       "case": slim(rows[bad_agree[0]])}, no_input=True)
+
+
 # ------------------------------------------------------------------ handler level
 def handler_suite(ctx, vh, name, args):
     rows = ctx.vh_jsonl(vh, "order", ["-mode", "handler"] + args, timeout=600)
@@ -224,7 +288,7 @@ def run(ctx):
                    "nhooyr.io/websocket: one writer at a time, messages delivered in order; net/http: a POST is answered after OnPacket returned"]
     ctx.assumptions = ["links are reliable FIFO (TCP); Go scheduler is fair enough for 30 s completion",
                        "Encode yields header :: attachments with the header announcing len(attachments) (C09)"]
-    ctx.proofs(modules=["Sio/PipelineCheck", "Sio/PipelineInst"])
+    ctx.proofs(modules=["Sio/PipelineCheck", "Sio/PipelineInst", "Sio/PipelineConnCheck"])
     vh = ctx.go_build()
     if vh is None:
         return
@@ -236,15 +300,33 @@ def run(ctx):
         if rep.get("engine") == "order" and rep.get("args"):
             if rep.get("mode") == "handler":
                 handler_suite(ctx, vh, "replay", [str(a) for a in rep["args"]])
+            elif rep.get("mode") == "connrace":
+                conn_suite(ctx, vh, "replay", [str(a) for a in rep["args"]])
             else:
                 wire_suite(ctx, vh, "replay", [str(a) for a in rep["args"]])
             return
         ctx.note("replay file names no scenario (kind=%s); running the whole tier" % rep.get("kind"))
+    import time as _t
+    t0 = [_t.time()]
+
+    def lap(what):
+        ctx.note("timing: %s %.1f s" % (what, _t.time() - t0[0]))
+        t0[0] = _t.time()
+    lap("proofs+build")
     if ctx.quick:
         wire_suite(ctx, vh, "burst", ["-seed", seed, "-n", 36, "-burst", 16, "-par", 6])
+        lap("wire/burst")
         wire_suite(ctx, vh, "paced", ["-seed", seed + 1, "-n", 6, "-emitters", 4, "-burst", 30, "-pace", 40000, "-par", 6])
+        lap("wire/paced")
         handler_suite(ctx, vh, "burst", ["-seed", seed + 2, "-n", 18, "-burst", 60, "-par", 6])
+        lap("handler")
+        conn_suite(ctx, vh, "race", ["-seed", seed + 3, "-n", 12, "-emitters", 8, "-burst", 100, "-par", 3])
+        lap("connrace/race")
+        conn_suite(ctx, vh, "window", ["-seed", seed + 4, "-n", 4, "-emitters", 2, "-burst", 12, "-window", "-par", 4])
+        lap("connrace/window")
     else:
         wire_suite(ctx, vh, "burst", ["-seed", seed, "-n", 144, "-burst", 40, "-par", 6])
         wire_suite(ctx, vh, "paced", ["-seed", seed + 1, "-n", 12, "-emitters", 8, "-burst", 60, "-pace", 40000, "-par", 6])
         handler_suite(ctx, vh, "burst", ["-seed", seed + 2, "-n", 72, "-burst", 150, "-par", 6])
+        conn_suite(ctx, vh, "race", ["-seed", seed + 3, "-n", 48, "-emitters", 8, "-burst", 100, "-par", 3])
+        conn_suite(ctx, vh, "window", ["-seed", seed + 4, "-n", 12, "-emitters", 3, "-burst", 20, "-window", "-par", 4])
